@@ -227,9 +227,14 @@ def rule_scrollbar_parts(ctx: Ctx) -> RuleResult:
             den = [a for a in n.right.args if isinstance(a, ast.Name)]
             if isinstance(num, ast.Name) and len(den) == 1:
                 ratio = (num.id, den[0].id)
+                ratio_node = n
     if ratio is None:
         raise AnalysisError("ScrollBar.render: the position ratio pos / max(1, posmax) was not found")
     P, PM = ratio
+    # the ratio itself limited to 1: min(1.0, pos / max(1, posmax)).  get_scrollpos() is clamped by the scrolling
+    # widget *for the size it is drawn at* - under a decoration (ScrollBar(LineBox(Scrollable))) that is smaller than
+    # the size the bar computes posmax for, so the contract alone does not bound the ratio (fix 36713f7)
+    clamped = any(isinstance(c, ast.Call) and callee_name(c) == "min" and any(a is ratio_node for a in c.args) and any(isinstance(a, ast.Constant) and a.value == 1 for a in c.args) for c in rn.own_nodes())
     for dn, v, how in du.defs.get(PM, []):
         if not (isinstance(v, ast.BinOp) and isinstance(v.op, ast.Sub) and isinstance(v.left, ast.Name)):
             continue
@@ -239,8 +244,12 @@ def rule_scrollbar_parts(ctx: Ctx) -> RuleResult:
         by_contract = bool(pdefs) and all(isinstance(pv, ast.Call) and callee_name(pv) == "get_scrollpos" for pv, ph, pn in pdefs)
         want = linear(ast.BinOp(left=ast.Name(id=P, ctx=ast.Load()), op=ast.Add(), right=B))
         raised = bool(adefs) and all(isinstance(av, ast.Call) and callee_name(av) == "max" and any(linear(a) == want for a in av.args) for av, ah, an in adefs)
-        rr.inst(f"position bound {norm(dn.stmt, 40)}", True, {"posmax": norm(dn.stmt, 50), "total_raised_to_pos_plus_visible": raised, "position_clamped_by_the_scrolled_widget": by_contract})
-        if not (raised or by_contract):
+        rr.inst(f"position bound {norm(dn.stmt, 40)}", True, {"posmax": norm(dn.stmt, 50), "total_raised_to_pos_plus_visible": raised, "position_clamped_by_the_scrolled_widget": by_contract, "ratio_limited_to_1": clamped})
+        if by_contract and not (raised or clamped):
+            rr.add(finding("PAIR", rn, dn.stmt, f"`{norm(dn.stmt, 50)}` is computed for the size the bar hands to its child, `{P}` is clamped by the scrolling widget for the size it is really drawn at: with a decoration in between (ScrollBar(LineBox(Scrollable))) the position exceeds this maximum, the ratio {P} / {PM} is above 1 and is not limited - the top part outgrows the trough and the bar is taller than the view (WidgetError)", construct=f"{PM}: position ratio not limited to 1"))
+        elif not (raised or by_contract):
+            # (the limit on the ratio only keeps the bar inside the view; with a maximum below the position the thumb
+            # sits at the bottom although the end of the content is not visible)
             rr.add(finding("PAIR", rn, dn.stmt, f"`{norm(dn.stmt, 50)}`: nothing makes `{A}` at least `{P} + {ast.unparse(B)}` (it is corrected to {[norm(av, 50) for av, ah, an in adefs]}), so with an under-estimated length the position exceeds its maximum, the top part outgrows the trough (ratio > 1) and the bar becomes taller than the view", construct=f"{PM}: total not raised to position + visible amount"))
     w = single(R["sb_width"])
     rr.inst("bar width remainder", True)
@@ -593,6 +602,7 @@ def run(ctx: Ctx):
 
 _F = "urwid/widget/scrollable.py"
 MUTANTS = [
+    Mut("scrollbar-ratio-unclamped", "urwid/widget/scrollable.py", "ScrollBar.render", "top_weight = min(1.0, float(pos) / max(1, posmax))", "top_weight = float(pos) / max(1, posmax)", "PAIR|widget.scrollable.ScrollBar.render|posmax: position ratio not limited to 1"),
     Mut("scrollable-fit-return-without-forward-flag", "urwid/widget/scrollable.py", "Scrollable.render", "            self._forward_keypress = canv.cursor is not None or ow.selectable()\n", "", "PASS|widget.scrollable.Scrollable.render|return without storing _forward_keypress"),
     Mut("wheel-arithmetic-on-raw-position", _F, "ScrollBar.mouse_event", "            if pos < 0:\n                # a position counted from the end that has not been rendered (normalised) yet\n                pos = max(0, ow.rows_max(ow_size, focus) - ow_size[1] + pos + 1)\n", "", "GUARD|widget.scrollable.ScrollBar.mouse_event"),
     Mut("scroll-request-survives-fitting-render", _F, "Scrollable._adjust_trim_top", "        action = self._scroll_action\n        self._scroll_action = None\n\n        _maxcol, maxrow = size", "        _maxcol, maxrow = size", "PASS|widget.scrollable.Scrollable._adjust_trim_top", also=[("        def ensure_bounds(new_trim_top: int) -> int:", "        action = self._scroll_action\n        self._scroll_action = None\n\n        def ensure_bounds(new_trim_top: int) -> int:")]),
